@@ -139,7 +139,7 @@ def attribute_methods(t, attribute_list, variant):
     insert_valid(t, attr, m)
 
 
-def data_table(t, g, tb):
+def data_table(t, g, tb, seed=0):
     dt = Node("dataTable")
     dt.add_child(Node("entityName", content="table-1"))
     if tb["desc"]:
@@ -155,7 +155,8 @@ def data_table(t, g, tb):
     df = Node("dataFormat")
     tf = Node("textFormat")
     if tb["delim"]:
-        tf.add_child(Node("recordDelimiter", content="\\n"))
+        # the delimiter as escaped text, or as the real control characters (a value made of line breaks is a value)
+        tf.add_child(Node("recordDelimiter", content=["\\n", "\n", "\r\n", "\r"][seed % 4]))
     tf.add_child(Node("attributeOrientation", content="column"))
     sd = Node("simpleDelimited")
     sd.add_child(Node("fieldDelimiter", content=","))
@@ -263,7 +264,7 @@ def build_dataset(profile, t, seed):
         pr.add_child(party("personnel", pt["userId"], pt["email"], pt["given"]) if pt["el"] == "personnel" else party("personnel"))
         d.add_child(pr)
     if profile["table"]["present"]:
-        d.add_child(data_table(t, g, profile["table"]))
+        d.add_child(data_table(t, g, profile["table"], seed))
     if profile["other"] != "absent":
         oe = Node("otherEntity")
         oe.add_child(Node("entityName", content="other"))
